@@ -154,6 +154,12 @@ def codec_queries(prop, tier):
                 qs.append(group_q(13, n, cap=cap))
         else:
             qs.append(group_q(prop, n))
+    # group with many fields (the width bitmap spans several bytes / words): 33, 40 and 64 fields, two of them symbolic
+    if prop in (2, 3, 16):
+        for n in ((40,) if q else (32, 33, 40, 64)):
+            qs.append(Query("group-%d-fields" % n, "array/group.c", ["varintGroup.c"] + T, defs={"N": n, "LITN": 1, "PROP": prop}, checks="mem",
+                            unwind=1 + (n * 2 + 7) // 8 + n * 8 + 8, unwind_fn={"varintGroup*": n + 2, "varintExternal*": 9, "ref_bytes": 9},
+                            timeout=900 if q else 3600, weight=5, extra=["--max-field-sensitivity-array-size", "700"]))
     # ---- delta
     if prop in (2, 3):
         for n in ((2,) if q else (1, 2, 3)):
@@ -167,6 +173,8 @@ def codec_queries(prop, tier):
                     qs.append(rle_q(13, n, hdr, cap=cap))
             else:
                 qs.append(rle_q(prop, n, hdr))
+    if prop == 13 and q:
+        qs.append(rle_q(13, 3, 0, cap=2))   # a later run crossing the capacity (needs >= 2 runs before the end)
     # run-length boundaries of the tagged run-length varint
     for (n, repl) in (((242, 241), (257, 256)) if q else ((241, 240), (242, 241), (256, 255), (257, 256), (242, 1))):
         for hdr in ((0,) if q else (0, 1)):
